@@ -280,4 +280,4 @@ mod tests {
 
 #[cfg(kani)]
 #[path = "/verif/units/kani/bitbox_wal_write.rs"]
-mod verif_kani;
+pub(crate) mod verif_kani;
